@@ -84,6 +84,7 @@ fn main() {
     // children that study time zones (C16) set their own TZ before chrono is first used
     std::env::set_var("LV_SET", "envdir");
     std::env::set_var("LV_BRACES", "b{}r");
+    std::env::set_var("LV_SLASH", "bill/api");
     std::env::remove_var("LV_UNSET");
     if std::env::var_os("LV_KEEP_TZ").is_none() {
         std::env::set_var("TZ", "<+0545>-5:45");
